@@ -222,6 +222,33 @@ def precedence(rep):
                 rep.violation(f"precedence:{has_builtin}:{has_user}:{has_base}:{requested_as}:{explicit_fn}", f"aggregation spec precedence: {name}, got {got or err}", {"obligation": name, "got": got or err}, True)
     finally:
         fl.load_aggregation_dict = saved
+    # by-p_id specs: user spec wins for that call and does not leak into later calls
+    try:
+        builtin = fl.load_aggregation_dict(typ="aggregate_by_p_id")
+        name0 = sorted(builtin)[0]
+        spec0 = builtin[name0]
+
+        def src_a(x: float) -> float:
+            return x
+
+        def src_b(x: float) -> float:
+            return x
+
+        funcs = {spec0["source_col"]: src_a, "verif_other_source": src_b}
+        user = {name0: {"p_id_to_aggregate_by": spec0["p_id_to_aggregate_by"], "source_col": "verif_other_source", "aggr": "sum"}}
+        before = list(inspect.signature(fl._create_aggregate_by_p_id_functions(funcs, {}, [])[name0]).parameters)
+        with_user = list(inspect.signature(fl._create_aggregate_by_p_id_functions(funcs, user, [])[name0]).parameters)
+        after = list(inspect.signature(fl._create_aggregate_by_p_id_functions(funcs, {}, [])[name0]).parameters)
+        ok1 = "verif_other_source" in with_user and spec0["source_col"] in before
+        ok2 = after == before
+        rep.ob(f"S by-p_id: a user spec for {name0} takes precedence in that call", "discharged" if ok1 else "refuted", "exhaustive-run", 0, "src/_gettsim/functions_loader.py:636-667", "precedence", f"{before} / {with_user}")
+        rep.ob(f"S by-p_id: the built-in spec of {name0} is unchanged in the next call without user specs", "discharged" if ok2 else "refuted", "exhaustive-run", 0, "src/_gettsim/functions_loader.py:636-667", "precedence", f"before {before} after {after}")
+        if not ok1:
+            rep.violation("precedence:by_p_id:user", f"user by-p_id spec for {name0} ignored: {with_user}", {"obligation": "S by-p_id user precedence"}, True)
+        if not ok2:
+            rep.violation("precedence:by_p_id:leak", f"after a call with a user by-p_id spec for {name0}, the built-in aggregate reads {after} instead of {before}", {"obligation": "S by-p_id no leak", "sequence": ["call without user specs", "call with user spec", "call without user specs"]}, True)
+    except Exception as ex:  # noqa: BLE001
+        rep.ob("S by-p_id precedence", "unsupported", "exhaustive-run", 0, "src/_gettsim/functions_loader.py:636-667", "precedence", repr(ex))
     # result type table (GEP-4)
     for aggr in ("sum", "mean", "max", "min", "any", "all"):
         for ty in (float, int, bool):
